@@ -337,6 +337,17 @@ def main(pid, tier, replay_path=None):
                     if other != fam:
                         scs += gen_scenarios(other, n_other, seed)
             res, crashed = run_scenarios(sc, binary, scs, 'a', procs=12)
+            fp_cov, fp_scs = {}, []
+            if pid == 'C08' and not replay_path:
+                # the output hand-off as an implementation-shaped model: exhaustive TLC, then its schedules on the real code
+                import flushp
+                fst, ftr = flushp.exhaustive(sc, tier)
+                fp_scs = flushp.scenarios(sc, tier, seed)
+                fres, fcr = run_scenarios(sc, binary, fp_scs, 'fp', procs=8)
+                res.update(fres)
+                crashed += fcr
+                fp_cov = {'flushproto_states': fst, 'flushproto_transitions': ftr, 'flushproto_schedules_replayed': len(fres),
+                          'flushproto_plans_that_drifted': sum(1 for s in fp_scs if fres.get(s['id'], {}).get('info', {}).get('drift', 0) > 0)}
             if not replay_path:
                 # single-stall exploration over a sample of this property's own family
                 own = [s for s in scs if s['id'].startswith(fam + '-')]
@@ -345,7 +356,7 @@ def main(pid, tier, replay_path=None):
                 base = focus + [s for s in own if not s.get('focus')][:nb - len(focus)]
                 extra = stall_variants(base, res, per_scenario=40 if tier == 'quick' else 80, rnd=random.Random(seed), skip_actors=())
                 res2, crashed2 = run_scenarios(sc, binary, extra, 'b', procs=12)
-                scs = scs + extra
+                scs = scs + extra + fp_scs
                 res.update(res2)
                 crashed += crashed2
             order = [s['id'] for s in scs]
@@ -376,6 +387,13 @@ def main(pid, tier, replay_path=None):
                 if v['scenario'] in known_from and v['line'] >= known_from[v['scenario']]:
                     continue
                 kf = known_match(findings, v, r)
+                if not kf and pid == 'C08' and byid[v['scenario']].get('holdsetup') and r['info'].get('proj'):
+                    # ask the model: does FlushProto.tla (the code as it is) follow this very schedule and reach the overlap of flush() and the
+                    # poller's write path (finding F16) on it?
+                    import flushp
+                    c_, t_, excl = flushp.impl_check(sc, [(byid[v['scenario']], r)], 'k%d' % len(seen))
+                    if c_ == t_ and not excl:
+                        kf = next((f for f in findings if f['id'] == 'F16'), None)
                 if kf:
                     known_hit.setdefault(kf['id'], kf)
                     if kf.get('signature', {}).get('poisons_rest'):
@@ -402,6 +420,12 @@ def main(pid, tier, replay_path=None):
                 if r:
                     samples.append({'scenario': {k: s[k] for k in s if k not in ('plan',)}, 'schedule_taken': r['info']['taken'][:60],
                                     'events': ['%s:%s:%s' % (e['g'], e['e'], e['k']) for e in r['events'][:40]]})
+            if fp_scs:
+                import flushp
+                c_, t_, _ = flushp.impl_check(sc, [(s, res[s['id']]) for s in fp_scs if s['id'] in res and not res[s['id']]['info'].get('stuck')], 'all')
+                fp_cov['flushproto_impl_spec_conformance'] = {'steps_followed': c_, 'steps_total': t_, 'all_followed': c_ == t_}
+                if c_ != t_:
+                    vlib.log('note: FlushProto.tla could not follow a recorded schedule (line %d of %d): the code no longer matches the implementation-shaped spec' % (c_ + 1, t_))
             steps = sum(r['info'].get('steps', 0) for r in res.values())
             cov = {'states': st.get('states', 1), 'transitions': st.get('transitions', 1),
                    'traces_validated_against_impl': ran, 'samples': samples,
@@ -409,10 +433,14 @@ def main(pid, tier, replay_path=None):
                    'distinct_schedules': len({tuple(r['info']['taken']) for r in res.values()}),
                    'violations_of_other_properties_seen': len([v for v in vs if not v['rule'].startswith(pid + '.')]),
                    'known_findings_matched': sorted(known_hit),
-                   'spec_modules': vlib.spec_hashes(['ConnObs.tla', 'TraceConn.tla']),
+                   'spec_modules': vlib.spec_hashes(['ConnObs.tla', 'TraceConn.tla'] + (['FlushProto.tla', 'TraceFPImpl.tla'] if fp_scs else [])),
                    'explanation': 'real connection on a socketpair with a manual poller under the controlled scheduler (every locker/FDOperator/trigger/'
                                   'length primitive is a schedule point); each execution is a recorded event trace validated by TLC against ConnObs.tla; '
                                   'states/transitions are those of the trace-validation run (one state per event)'}
+            if fp_cov:
+                cov.update(fp_cov)
+                cov['trace_validation_states'] = cov['states']
+                cov['states'], cov['transitions'] = fp_cov['flushproto_states'], fp_cov['flushproto_transitions']   # the exhaustive model of this property
             vlib.write_evidence(pid, tier, 'model_checking', cov, time.time() - t0, len(violations),
                                 ['TLC/SANY', 'Go toolchain', 'controlled scheduler and manual poller of the harness', 'kernel socketpair/epoll behaviour as observed',
                                  'handler scripts respect the documented contract (consume or close)'])
